@@ -67,7 +67,7 @@ def live_record(rid, chunks, expect_seqs, logon_first=True):
     ep = Endpoint(loop, "A", "B")
     err = None
     try:
-        with watchdog(20):
+        with watchdog(120):
             ep.attach()
             loop.advance(1.0)
             if logon_first:
@@ -109,7 +109,7 @@ def reads_record(rid, chunks, ends, expect, tail=0):
     err = None
     deliv, buflen = [], -1
     try:
-        with watchdog(30):
+        with watchdog(120):
             ep.attach()
             loop.advance(1.0)
             ep.feed(PeerCodec("B", "A").frame("LOGON", 1))
